@@ -71,7 +71,7 @@ def run(cmd, timeout=60, mem=8 << 30):
         return 'timeout', (e.stdout or b'').decode(errors='replace')
 
 
-def build_tbb_from_source(outdir, jobs=16):
+def build_tbb_from_source(outdir, jobs=16, debug_files=()):
     """Compile /repo/src/tbb/*.cpp (CURRENT working tree) into <outdir>/libtbb.so.12 so that replays of src/tbb changes do not depend on a
     prebuilt library.  Returns the directory (to be used as -L / rpath)."""
     import concurrent.futures as cf
@@ -82,7 +82,10 @@ def build_tbb_from_source(outdir, jobs=16):
 
     def one(src):
         o = os.path.join(outdir, os.path.basename(src) + '.o')
-        p = subprocess.run(['g++'] + flags + ['-c', src, '-o', o], stdout=subprocess.PIPE, stderr=subprocess.STDOUT, timeout=600)
+        fl = flags
+        if os.path.basename(src) in debug_files:      # translation units a gdb-driven replay stops in: unoptimised, with line info
+            fl = [x for x in flags if x not in ('-O1', '-g0')] + ['-O0', '-g']
+        p = subprocess.run(['g++'] + fl + ['-c', src, '-o', o], stdout=subprocess.PIPE, stderr=subprocess.STDOUT, timeout=600)
         if p.returncode != 0:
             raise NativeError('libtbb source build failed on %s: %s' % (src, p.stdout.decode(errors='replace')[-800:]))
         return o
